@@ -10,6 +10,21 @@ INFO = {
  'C25-2': ('C25', 'WalRecord::decode_body drops the first length guard of the ManifestSwitch arm', 'a checksummed frame with tag 9 and a body of 1..12 bytes: slice index panic instead of end-of-log'),
  'C27-1': ('C27', 'branchless float key transform with shift 62 instead of 63', 'two floats that are 1-ULP neighbours differing in the lowest mantissa bit, in [2.0, inf) or (-2.0, 0): order inverted'),
  'C27-2': ('C27', 'string/blob terminator shortened from 00 00 to 00', 'a value with an embedded NUL exactly where another indexed value ends: one key is a proper prefix of the other'),
+ 'C17-3': ('C17', 'WalReader::next_record bounds the whole frame (8 + len) by MAX_WAL_RECORD_LEN instead of the body', 'a completely written record whose body is within 8 bytes of 1 MiB (e.g. a label name of ~1 MiB): replay stops in front of it, later commits are lost'),
+ 'C17-4': ('C17', 'Wal::append cuts the tail with set_len but no longer seeks to the new end', 'the first append through a handle on a log that has any bytes behind the last complete record: the record is written behind a zero gap'),
+ 'C17-5': ('C17', 'replay_committed_from_path rejects a BeginTx that repeats the txid of the open transaction', 'a crash in the middle of a commit followed by a successful commit (the engine reuses the txid): every later open fails'),
+ 'C25-3': ('C25', 'PropertyValue::encode normalises -0.0 to +0.0', 'Float(-0.0): sign bit lost in the round trip (invisible to ==)'),
+ 'C25-4': ('C25', 'decode_recursive Int/Float/DateTime arms share a helper whose guard forgets the tag byte', 'exactly 8 bytes left where a tag 2/3/5 value starts: slice index panic'),
+ 'C25-5': ('C25', 'WalRecord::record_type groups AddNodeLabel | RemoveNodeLabel => 16', 'a RemoveNodeLabel record: replays as AddNodeLabel'),
+ 'C25-6': ('C25', 'read_u64 accepts payloads longer than 8 bytes but still unwraps try_into', 'a checksummed frame of type 1, 2 or 4 with 9 or more payload bytes: panic in replay'),
+ 'C26-1': ('C26', 'internal_child_for_key breaks out of its binary search on an equal separator', 'two or more equal separators in one internal page (a run of equal keys over three or more leaves): descent lands in the middle of the run'),
+ 'C26-2': ('C26', 'shared helper insert_slot bumps the cell count before shifting the slots', 'a page that ends up exactly full: the shift writes two bytes past the slot array into the new cell'),
+ 'C26-3': ('C26', 'cursor_lower_bound hops at most once to the right sibling', 'an empty leaf right of the landing leaf (or two in a row): the cursor is invalid although larger entries exist'),
+ 'C26-4': ('C26', 'fast path for an insert at the end of a full leaf starts a one-entry right leaf whose right sibling link is never set', 'an insert at the end of a full leaf that is not the last leaf: the sibling chain is cut, scans lose everything to the right'),
+ 'C27-3': ('C27', 'float zero normalisation by magnitude (|f| < EPSILON encodes as +0.0)', 'floats smaller than 2^-52 in magnitude: order and distinctness lost'),
+ 'C27-4': ('C27', 'escape bytes swapped through shared constants (00 -> FF 00)', 'values with an embedded 0x00 against values with a non-zero byte there; blobs lose prefix-freedom'),
+ 'C18-4': ('C18', 'allocate_page skips ensure_allocated (and its meta/bitmap flush) for pages taken from a hole', 'free, reuse, close without a further flush, reopen: the on-disk bitmap says free, the next allocation overwrites the page'),
+ 'C18-5': ('C18', 'make_room_for_next_record sizes the run as len / 512 + 1 and uses that for the copy and free loops too', 'a relocation: the neighbouring structure page that blocked the table is freed as well and later reused'),
  'C18-1': ('C18', 'Pager keeps an in-memory free list that allocate_page pops before scanning the bitmap; ensure_allocated never removes from it', 'a page is freed, the node table (length a multiple of 512) grows in place into it, then another structure allocates: allocate_page returns an allocated page'),
  'C18-2': ('C18', 'make_room_for_next_record updates self.i2e_start itself and returns (); the caller keeps writing at the start page it read before the call (two cooperating sites)', 'a relocation of the node table (length a non-zero multiple of 512 and the next page taken): record 512 is written into the neighbouring structure\'s page'),
  'C18-3': ('C18', 'BlobStore::write_direct lays the chain out front to back at first, first+1, ... instead of at the pages it allocated', 'a blob longer than one page whose first page is a hole with an allocated right-hand neighbour'),
